@@ -350,3 +350,12 @@ def error_position_no_panic(O):
             n += 1
     if n == 0:
         O.inconclusive("vacuous: text_pos_to_range never returns")
+
+
+@obligation("C16/test-headers-lex-without-panic", desc="dig::File::parse runs the header lexer over every test's source: the generated "
+            "header lexer (executed from MIR over symbolic bytes, <= 6 bytes of arbitrary well-formed UTF-8 left) never yields an "
+            "error item - the arm HeaderParser::parse marks unreachable!() - so a document with any characters in a test header "
+            "loads or is an error, never a panic")
+def test_headers_lex(O):
+    from . import C09
+    C09.HEADER_LEXER_UTF8(dri.WithRep(O, rep()))
